@@ -1,5 +1,5 @@
 import os, sys, hashlib, hmac as pyhmac
-from vf import Check, Stream, hexs
+from vf import Check, Stream, hexs, run_exe_on_cases, BUILD
 sys.path.insert(0, os.path.join(os.path.dirname(os.path.abspath(__file__)), '..', 'gen'))
 import tables
 
@@ -151,6 +151,26 @@ class C17(Check):
             cases.append(ops)
         out.append(Stream('histories', cases))
         return out
+
+    # the extracted model and spec absorb ~10 KB/s: the 1 MiB case of the thorough tier needs more than vf's default budget
+    def _slow(self, cases):
+        return any(l.startswith('updrep ') and len(l.split()[1]) // 2 * int(l.split()[2]) > 200000 for c in cases for l in c)
+
+    def _run_slow(self, cases, tag, args):
+        # the extracted list functions (app, map) are not tail recursive: a 1 MiB message needs more than the 8 MB default stack
+        import resource
+        soft, hard = resource.getrlimit(resource.RLIMIT_STACK)
+        resource.setrlimit(resource.RLIMIT_STACK, (hard, hard))
+        try:
+            return run_exe_on_cases(self.exes['model'], cases, os.path.join(BUILD, self.id, 'run'), tag, args=args, timeout=3000)[0]
+        finally:
+            resource.setrlimit(resource.RLIMIT_STACK, (soft, hard))
+
+    def run_model(self, cases, tag='model'):
+        return self._run_slow(cases, tag, self.model_args) if self._slow(cases) else Check.run_model(self, cases, tag)
+
+    def run_spec(self, cases, tag='spec'):
+        return self._run_slow(cases, tag, self.spec_args) if self._slow(cases) else Check.run_spec(self, cases, tag)
 
     def run_impl(self, cases, tag='impl'):
         # a case that streams up to 2^32 bytes through the sanitizer build needs more than the usual 10 s watchdog
